@@ -71,6 +71,10 @@ package graph
 //@   except precondition@1d1790#1 : undischarged on the reference tree (engine limit or missing callee contract), not claimed
 //@   nopanic[C01,C13]
 //@   requires vwf(v)
+//@   pure
+//@   loop 1
+//@     invariant frame()
+//@     invariant vx == nil || fresh(vx)
 
 //@ func CheckCycle
 //@   except nilrecv@dd3a09#1, precondition@dd3a09#1 : undischarged on the reference tree (engine limit or missing callee contract), not claimed
@@ -203,6 +207,10 @@ package graph
 // given a frame (its loop contains a call), so the clause is inactive.
 //@ func (*traversal).skip
 //@   nopanic[C01,C13]
-//@?  ensures[C13] (exists i int :: 0 <= i && i < len(t.Options.after) && t.Options.after[i] == node.key) ==> !result
+// the decision is a function of the graph and the roots only: no traversal state is written, and the transitive
+// closure below the node is consulted (whatever the direction of the walk)
+//@   pure
+//@   callsite[C13] graph.(*vertex).descendents : v == node
+//@   ensures[C13] (exists i int :: 0 <= i && i < len(t.Options.after) && t.Options.after[i] == node.key) ==> !result
 //@   requires t.Options != nil && vwf(node)
 //@   ensures[C13] len(t.Options.after) == 0 ==> !result
